@@ -19,6 +19,7 @@ def run (line : String) : String :=
         | "C04" :: _ => judgeC04 o
         | "C05" :: _ => judgeC05 o
         | "C06" :: _ => judgeC06 o
+        | "C07" :: "user-errors" :: _ => judgeC07 o true
         | "C07" :: _ => judgeC07 o
         | "C08" :: _ => judgeC08 o
         | "C09" :: _ => judgeC09 o
